@@ -157,6 +157,12 @@ type Vaxis struct {
 	// frame and the cursor calls take it too, Suspend shares the writer and
 	// the cursor state with them
 	suspendMu sync.Mutex
+
+	// inputStop is closed by Suspend: it releases the input goroutine from
+	// a post to a full event queue. inputDone is closed by that goroutine
+	// once it handles no more input
+	inputStop chan struct{}
+	inputDone chan struct{}
 }
 
 // New creates a new [Vaxis] instance. Calling New will query the underlying
@@ -442,11 +448,26 @@ func (vx *Vaxis) PostEvent(ev Event) {
 // block if the queue is full. This method should only be used from a different
 // goroutine than the main thread.
 func (vx *Vaxis) PostEventBlocking(ev Event) {
+	vx.post(ev, nil)
+}
+
+// postInput is PostEventBlocking for the input goroutine. Suspend gives the
+// goroutine up too: nobody may be reading the queue while the application is
+// suspended, and the goroutine has to be gone before Resume starts the next
+// one. Input which arrives during shutdown is discarded
+func (vx *Vaxis) postInput(ev Event) {
+	vx.post(ev, vx.inputStop)
+}
+
+// post is the blocking post; it also gives up when stop (nil: never) is closed
+func (vx *Vaxis) post(ev Event, stop <-chan struct{}) {
 	if atomicLoad(&vx.holdInput) {
 		// the input which came in during start-up goes first
 		select {
 		case <-vx.chTypeahead:
 		case <-vx.chQuit:
+			return
+		case <-stop:
 			return
 		}
 	}
@@ -455,6 +476,7 @@ func (vx *Vaxis) PostEventBlocking(ev Event) {
 	case <-vx.chQuit:
 		// Vaxis has been closed: nobody is going to read the queue, don't
 		// leave the caller (often the input goroutine) blocked forever
+	case <-stop:
 	}
 }
 
@@ -893,25 +915,25 @@ func (vx *Vaxis) handleSequence(seq ansi.Sequence) {
 		if vx.pastePending {
 			key.EventType = EventPaste
 		}
-		vx.PostEventBlocking(key)
+		vx.postInput(key)
 	case ansi.C0:
 		key := decodeKey(seq)
 		if vx.pastePending {
 			key.EventType = EventPaste
 		}
-		vx.PostEventBlocking(key)
+		vx.postInput(key)
 	case ansi.ESC:
 		key := decodeKey(seq)
 		if vx.pastePending {
 			key.EventType = EventPaste
 		}
-		vx.PostEventBlocking(key)
+		vx.postInput(key)
 	case ansi.SS3:
 		key := decodeKey(seq)
 		if vx.pastePending {
 			key.EventType = EventPaste
 		}
-		vx.PostEventBlocking(key)
+		vx.postInput(key)
 	case ansi.CSI:
 		switch seq.Final {
 		case 'c':
@@ -924,20 +946,20 @@ func (vx *Vaxis) handleSequence(seq ansi.Sequence) {
 					}
 					switch ps[0] {
 					case 4:
-						vx.PostEventBlocking(capabilitySixel{})
+						vx.postInput(capabilitySixel{})
 					}
 				}
-				vx.PostEventBlocking(primaryDeviceAttribute{})
+				vx.postInput(primaryDeviceAttribute{})
 				// New stops collecting at this reply: what we post
 				// from here on follows the input it has kept
 				atomicStore(&vx.holdInput, true)
 				return
 			}
 		case 'I':
-			vx.PostEventBlocking(FocusIn{})
+			vx.postInput(FocusIn{})
 			return
 		case 'O':
-			vx.PostEventBlocking(FocusOut{})
+			vx.postInput(FocusOut{})
 			return
 		case 'R':
 			// KeyF3 or DSRCPR
@@ -974,7 +996,7 @@ func (vx *Vaxis) handleSequence(seq ansi.Sequence) {
 				switch seq.Parameters[0][0] {
 				case 2:
 					if seq.Parameters[1][0] == 0 {
-						vx.PostEventBlocking(capabilitySixel{})
+						vx.postInput(capabilitySixel{})
 					}
 				}
 				return
@@ -987,7 +1009,7 @@ func (vx *Vaxis) handleSequence(seq ansi.Sequence) {
 				switch seq.Parameters[0][0] {
 				case colorThemeResp: // 997
 					m := ColorThemeMode(seq.Parameters[1][0])
-					vx.PostEventBlocking(ColorThemeUpdate{
+					vx.postInput(ColorThemeUpdate{
 						Mode: m,
 					})
 				}
@@ -1007,7 +1029,7 @@ func (vx *Vaxis) handleSequence(seq ansi.Sequence) {
 				}
 				switch seq.Parameters[1][0] {
 				case 1, 2:
-					vx.PostEventBlocking(synchronizedUpdates{})
+					vx.postInput(synchronizedUpdates{})
 				}
 			case 2027:
 				if len(seq.Parameters) < 2 {
@@ -1023,7 +1045,7 @@ func (vx *Vaxis) handleSequence(seq ansi.Sequence) {
 						vx.keepUnicodeCore = true
 						vx.mu.Unlock()
 					}
-					vx.PostEventBlocking(unicodeCoreCap{})
+					vx.postInput(unicodeCoreCap{})
 				}
 			case 2031:
 				if len(seq.Parameters) < 2 {
@@ -1037,13 +1059,13 @@ func (vx *Vaxis) handleSequence(seq ansi.Sequence) {
 						vx.keepColorTheme = true
 						vx.mu.Unlock()
 					}
-					vx.PostEventBlocking(notifyColorChange{})
+					vx.postInput(notifyColorChange{})
 				}
 			}
 			return
 		case 'u':
 			if len(seq.Intermediate) == 1 && seq.Intermediate[0] == '?' {
-				vx.PostEventBlocking(kittyKeyboard{})
+				vx.postInput(kittyKeyboard{})
 				return
 			}
 		case '~':
@@ -1055,18 +1077,18 @@ func (vx *Vaxis) handleSequence(seq ansi.Sequence) {
 				switch seq.Parameters[0][0] {
 				case 200:
 					vx.pastePending = true
-					vx.PostEventBlocking(PasteStartEvent{})
+					vx.postInput(PasteStartEvent{})
 					return
 				case 201:
 					vx.pastePending = false
-					vx.PostEventBlocking(PasteEndEvent{})
+					vx.postInput(PasteEndEvent{})
 					return
 				}
 			}
 		case 'M', 'm':
 			mouse, ok := parseMouseEvent(seq)
 			if ok {
-				vx.PostEventBlocking(mouse)
+				vx.postInput(mouse)
 			}
 			return
 		case 't':
@@ -1094,7 +1116,7 @@ func (vx *Vaxis) handleSequence(seq ansi.Sequence) {
 				if !report {
 					// Gate on this so we only report this
 					// once at startup
-					vx.PostEventBlocking(textAreaPix{})
+					vx.postInput(textAreaPix{})
 					return
 				}
 			case 8:
@@ -1108,7 +1130,7 @@ func (vx *Vaxis) handleSequence(seq ansi.Sequence) {
 					// once at startup. This also means we
 					// can set the size directly and won't
 					// have race conditions
-					vx.PostEventBlocking(textAreaChar{})
+					vx.postInput(textAreaChar{})
 					return
 				}
 				// Never block the input loop on a report nobody
@@ -1130,7 +1152,7 @@ func (vx *Vaxis) handleSequence(seq ansi.Sequence) {
 					resize := vx.caps.inBandResize
 					vx.mu.Unlock()
 					if !resize {
-						vx.PostEventBlocking(inBandResizeEvents{})
+						vx.postInput(inBandResizeEvents{})
 					}
 					vx.Resize()
 				}
@@ -1142,7 +1164,7 @@ func (vx *Vaxis) handleSequence(seq ansi.Sequence) {
 		if vx.pastePending {
 			key.EventType = EventPaste
 		}
-		vx.PostEventBlocking(key)
+		vx.postInput(key)
 	case ansi.DCS:
 		switch seq.Final {
 		case 'r':
@@ -1165,9 +1187,9 @@ func (vx *Vaxis) handleSequence(seq ansi.Sequence) {
 				// hex digits come in either case
 				switch strings.ToUpper(vals[0]) {
 				case hexEncode("Smulx"):
-					vx.PostEventBlocking(styledUnderlines{})
+					vx.postInput(styledUnderlines{})
 				case hexEncode("RGB"):
-					vx.PostEventBlocking(truecolor{})
+					vx.postInput(truecolor{})
 				}
 			case '$':
 				// DECRQSS response (DECRPSS)
@@ -1198,10 +1220,10 @@ func (vx *Vaxis) handleSequence(seq ansi.Sequence) {
 				if strings.EqualFold(string(seq.Data), hexEncode("~VTE")) {
 					// VTE supports styled underlines but
 					// doesn't respond to XTGETTCAP
-					vx.PostEventBlocking(styledUnderlines{})
+					vx.postInput(styledUnderlines{})
 				}
 			case '>':
-				vx.PostEventBlocking(terminalID(seq.Data))
+				vx.postInput(terminalID(seq.Data))
 			}
 		}
 	case ansi.APC:
@@ -1209,7 +1231,7 @@ func (vx *Vaxis) handleSequence(seq ansi.Sequence) {
 			return
 		}
 		if strings.HasPrefix(seq.Data, "G") {
-			vx.PostEventBlocking(kittyGraphics{})
+			vx.postInput(kittyGraphics{})
 		}
 	case ansi.OSC:
 		if strings.HasPrefix(string(seq.Payload), "4") {
@@ -1221,21 +1243,21 @@ func (vx *Vaxis) handleSequence(seq ansi.Sequence) {
 			if vx.CanReportColor() {
 				offerReply(vx.chColor, string(seq.Payload))
 			}
-			vx.PostEventBlocking(capabilityOsc4{})
+			vx.postInput(capabilityOsc4{})
 		}
 		if strings.HasPrefix(string(seq.Payload), "10") {
 			// Similar to OSC 4
 			if vx.CanReportForegroundColor() {
 				offerReply(vx.chFg, string(seq.Payload))
 			}
-			vx.PostEventBlocking(capabilityOsc10{})
+			vx.postInput(capabilityOsc10{})
 		}
 		if strings.HasPrefix(string(seq.Payload), "11") {
 			// Similar to OSC 4
 			if vx.CanReportBackgroundColor() {
 				offerReply(vx.chBg, string(seq.Payload))
 			}
-			vx.PostEventBlocking(capabilityOsc11{})
+			vx.postInput(capabilityOsc11{})
 		}
 		if strings.HasPrefix(string(seq.Payload), "52") {
 			vals := strings.Split(string(seq.Payload), ";")
@@ -1264,7 +1286,7 @@ func (vx *Vaxis) handleSequence(seq ansi.Sequence) {
 			}
 			// like every other reply: with PostEvent a full queue lost it and,
 			// at start up, the capability with it
-			vx.PostEventBlocking(appID(vals[1]))
+			vx.postInput(appID(vals[1]))
 		}
 	}
 }
@@ -1598,6 +1620,11 @@ func (vx *Vaxis) Suspend() error {
 	for range vx.parser.Next() {
 	}
 	vx.parser.WaitClose()
+	// The input goroutine ends with its parser. Release it from a post to
+	// a full queue and wait until it is gone: it shares state with the one
+	// Resume starts, and no goroutine of ours is to outlive Suspend
+	close(vx.inputStop)
+	<-vx.inputDone
 
 	vx.disableModes()
 	vx.exitAltScreen()
@@ -1649,9 +1676,23 @@ func (vx *Vaxis) openTty(tgts []*os.File) error {
 	// The goroutine reads from the parser it was started for: after a
 	// Suspend it may still be on its way out when Resume installs a new one
 	parser := vx.parser
+	vx.inputStop = make(chan struct{})
+	done := make(chan struct{})
+	vx.inputDone = done
 
 	go func() {
+		// done is closed when this goroutine returns, and before it shuts
+		// Vaxis down itself: the Suspend in that Close must not wait for
+		// the goroutine it runs in (or which waits for another's Close)
+		left := false
+		leave := func() {
+			if !left {
+				left = true
+				close(done)
+			}
+		}
 		defer func() {
+			leave()
 			if err := recover(); err != nil {
 				vx.Close()
 				panic(err)
@@ -1674,8 +1715,9 @@ func (vx *Vaxis) openTty(tgts []*os.File) error {
 				}
 			case <-vx.chSigWinSz:
 				atomicStore(&vx.resize, true)
-				vx.PostEventBlocking(Redraw{})
+				vx.postInput(Redraw{})
 			case <-vx.chSigKill:
+				leave()
 				vx.Close()
 				return
 			}
